@@ -135,6 +135,27 @@ theorem destroy_single_owner (p : Program) (hq : EventsQuiet p) (n : Nat) (v : V
     (h : Held s fl) (hok : (destroyVal p n v s).out = .ok ()) : Held (destroyVal p n v s).st fl :=
   h.sub (destroyVal_sub p hq n v s fl hok)
 
+/-- **destroy_event_once_partial**: destroying a live resource that declares a destruction event and
+whose fields hold no containers appends exactly one event to the event trace and marks the cell dead; a
+second destroy of the same cell fails with `destroyed-resource` and appends nothing.  Missing for the
+full statement: nested resources (one event per nested resource, children first) and "no event for a
+resource that is not destroyed" — both covered by the stream's event census only. -/
+theorem destroy_event_once_partial (p : Program) (hq : EventsQuiet p) (n m id : Nat) (c : Cell) (name : String)
+    (fs : List (String × Val)) (params : List (String × Expr)) (s : State)
+    (hc : s.heap[id]? = some c) (halive : c.alive = true) (hres : c.res = true) (ho : c.obj = .comp name fs)
+    (hleaf : ∀ v ∈ c.obj.vals, v.ptrs = []) (hev : (p.findComp name).bind (·.destroyEvent) = some params)
+    (hok : (destroyVal p (n + 1) (.ptr id) s).out = .ok ()) :
+    let r := destroyVal p (n + 1) (.ptr id) s
+    (∃ line, r.st.events = s.events ++ [line]) ∧
+    (destroyVal p (m + 1) (.ptr id) r.st).out = .userErr .destroyedResource ∧
+    (destroyVal p (m + 1) (.ptr id) r.st).st = r.st := by
+  obtain ⟨line, hst⟩ := destroy_leaf p hq n id c name fs params s hc halive hres ho hleaf hev hok
+  have hlt := (List.getElem?_eq_some_iff.mp hc).1
+  simp only [hst]
+  refine ⟨⟨line, rfl⟩, ?_⟩
+  exact double_destroy_guard p m id { c with alive := false, gen := c.gen + 1 } _
+    (by simp [List.getElem?_set_self hlt]) rfl
+
 /-! ### non-vacuity -/
 
 /-- a program with a resource `R` (destruction event with a field-read default argument) -/
